@@ -169,6 +169,7 @@ type task struct {
 	fired   atomic.Bool // AfterFunc timer fired, goroutine parked
 	prio    int
 	ticks   int
+	sinceSP int // loop ticks since the task last reached a scheduling point
 	tickSite string
 	cond    *Cond
 	condSignalled bool
@@ -708,6 +709,7 @@ func (s *Sim) yield(site string) {
 	if s.aborting {
 		return
 	}
+	t.sinceSP = 0
 	s.step++
 	s.swept = false
 	if s.step > s.cfg.MaxSteps {
@@ -749,6 +751,7 @@ func (s *Sim) park(t *task, k blockKind, obj uintptr, site string) {
 	t.state = tBlocked
 	t.bkind, t.bobj, t.bsite = k, obj, site
 	t.ticks = 0
+	t.sinceSP = 0
 	s.step++
 	s.fold(t.kind, "park:"+site)
 	s.logf("%s blocks %s @%s", t.name, blockNames[k], site)
@@ -1080,13 +1083,14 @@ func Tick(site string) {
 	}
 	t := s.cur
 	t.ticks++
+	t.sinceSP++
 	t.tickSite = site
-	if t.ticks&4095 == 0 {
-		if t.ticks >= s.cfg.TickLimit {
+	if t.sinceSP&4095 == 0 {
+		if t.sinceSP >= s.cfg.TickLimit {
 			if s.aborting {
 				runtime.Goexit()
 			}
-			s.Fail("hang", "loop@"+site, fmt.Sprintf("task %s executed %d loop iterations without reaching a scheduling point (op %q)", t.name, t.ticks, t.opLabel))
+			s.Fail("hang", "loop@"+site, fmt.Sprintf("task %s executed %d loop iterations without reaching a scheduling point (op %q)", t.name, t.sinceSP, t.opLabel))
 		}
 	}
 }
@@ -1131,7 +1135,7 @@ func (s *Sim) Settle() { synctest.Wait() }
 func (s *Sim) SetMaxSimTime(d time.Duration) { s.cfg.MaxSimTime = d }
 
 // Op labels what the current task is executing (appears in hang reports).
-func (s *Sim) Op(label string) { s.cur.opLabel = label; s.cur.ticks = 0 }
+func (s *Sim) Op(label string) { s.cur.opLabel = label; s.cur.ticks = 0; s.cur.sinceSP = 0 }
 
 // TaskCount returns how many tasks exist and how many are not done.
 func (s *Sim) TaskCount() (total, live int) {
